@@ -13,6 +13,10 @@ evaluated over *terms*:
                      quotient of two exactly representable numbers IS the correctly rounded decimal
                      (N < 2^53, k <= 22 are side conditions)
 
+`int_mode='int'` maps Python ints to SMT Int instead (no bit operations, no floats; `//` and `%` become fresh variables
+defined by multiplication axioms, so the queries are QF_NIA); `ceil_cut` reads math.ceil(a / b) on ints as the integer
+ceiling and records the instances in `Interp.lemmas` (the caller owes the Float64 lemma that justifies it).
+
 Everything that is not numeric (match objects, dict look-ups with concrete keys, list.append, attribute
 access on real objects, nested defs, classes of the real module) is evaluated concretely / structurally.
 Branches on symbolic conditions fork: `Interp.explore(thunk)` re-executes the kernel once per feasible
@@ -464,7 +468,6 @@ class Interp:
         if cb is not None:
             if cb == 0:
                 return self.bv(0)
-            lo, hi = sorted((self.MIN // cb if cb > 0 else -(self.MAX // -cb), self.MAX // cb if cb > 0 else -(self.MIN // -cb)))
             # conservative: |a| <= MAX // |cb|
             m = self.MAX // abs(cb)
             self.add_side(z3.And(a >= self.bv(-m), a <= self.bv(m)), 'mul overflow')
@@ -1161,7 +1164,6 @@ class Interp:
                 lo = -n
             else:
                 raise PyRaise('IndexError', 'list index out of range')
-            acc = base[lo + n - 1] if lo == 0 else base[-1]
             rng = range(0, n) if lo == 0 else range(-n, 0)
             acc = base[rng[-1]]
             for j in reversed(rng[:-1]):
